@@ -228,12 +228,25 @@ def gen13(rng, n=30):
         return base + [f"u{uniq[0]}"]
     nstamps = 0
     kinds = {}
+    lastfile = {}
     for _ in range(n):
         p = rng.randrange(np_)
         r = rng.random()
-        if r < 0.16: ops.append(f"mkfile {p} {rng.choice(SIZES if rng.random() < 0.5 else [0, 1, 2, 3, 10])} {rng.randint(0, 3)} {rng.randint(1, 5)}")
+        if r < 0.16:
+            size, cseed, mt = rng.choice(SIZES if rng.random() < 0.5 else [0, 1, 2, 3, 10]), rng.randint(0, 3), rng.randint(1, 5)
+            ops.append(f"mkfile {p} {size} {cseed} {mt}"); lastfile[p] = (size, cseed, mt)
+        elif r < 0.20 and p in lastfile and lastfile[p][0] > 0:
+            # same path rewritten with the SAME size and modification time but different content (restored/copied file,
+            # coarse timestamps): only the content hash can tell; then check an earlier stamp of this path
+            size, cseed, mt = lastfile[p]
+            cseed = (cseed + rng.randint(1, 3)) % 4
+            ops.append(f"mkfile {p} {size} {cseed} {mt}"); lastfile[p] = (size, cseed, mt)
+            mine = [k for k, (c, p0) in kinds.items() if p0 == p]
+            if mine:
+                k = rng.choice(mine); ops.append(f"check {kinds[k][0]} {p} {k}")
+            c = rng.choice("HHM"); ops.append(f"stamp {c} {rng.choice(['path', 'reader'])} {p}"); kinds[nstamps] = (c, p); nstamps += 1
         elif r < 0.24: ops.append(f"mkdir {p} {rng.randint(1, 5)} " + " ".join(fresh_names()))
-        elif r < 0.30: ops.append(f"rm {p}")
+        elif r < 0.30: ops.append(f"rm {p}"); lastfile.pop(p, None)
         elif r < 0.36: ops.append(f"touch {p} {rng.randint(1, 5)}")
         elif r < 0.56:
             c = rng.choice("EMH"); ops.append(f"stamp {c} {rng.choice(['path', 'reader'])} {p}"); kinds[nstamps] = (c, p); nstamps += 1
